@@ -12,7 +12,10 @@ def main():
     checks = sys.argv[3:] or [pid]
     src = '%s/%s/%s' % (os.environ.get('SEED_SRC', '/tmp/seed_out'), pid, var)
     ss = os.environ.get('SEED_SRC', '')
-    dvar = {'A': 'C', 'B': 'D'}[var] if ss.endswith('seed2_out') else ({'A': 'E', 'B': 'F'}[var] if ss.endswith('seed3_out') else ({'A': 'G', 'B': 'H'}[var] if ss.endswith('seed4_out') else ({'A': 'I', 'B': 'J'}[var] if ss.endswith('seed5_out') else ({'A': 'K', 'B': 'L'}[var] if ss.endswith('seed6_out') else var))))
+    import re
+    mw = re.search(r'seed(\d+)_out$', ss)
+    wave = int(mw.group(1)) if mw else 1
+    dvar = chr(ord(var) + 2 * (wave - 1)) if var in 'AB' and wave > 1 else var
     dst = '%s/seeded/%s-%s' % (V, pid, dvar)
     if not os.path.exists(src) and os.path.exists(dst):
         src = dst
